@@ -612,3 +612,129 @@ pub mod ovr_gen_none {
         fn on_done(&self, _ctx: ReplyCtx, #[sv::payload(raw)] _payload: Binary) -> StdResult<Response> { Ok(Response::new()) }
     }
 }
+
+pub mod ovr_shared_sudo_migr {
+    use super::*;
+    pub mod eps {
+        use super::super::*;
+        #[sylvia::cw_schema::cw_serde]
+        pub struct CustomMigrate {}
+        pub fn migrate(_deps: DepsMut, _env: Env, _msg: CustomMigrate) -> StdResult<Response> { Ok(Response::new()) }
+    }
+
+    pub struct Contract;
+
+    #[entry_points]
+    #[contract]
+    #[sv::features(replies)]
+    #[sv::override_entry_point(sudo=eps::migrate(eps::CustomMigrate))]
+    #[sv::override_entry_point(migrate=eps::migrate(eps::CustomMigrate))]
+    impl Contract {
+        pub fn new() -> Self { Self }
+        #[sv::msg(instantiate)]
+        fn instantiate(&self, _ctx: InstantiateCtx) -> StdResult<Response> { Ok(Response::new()) }
+        #[sv::msg(exec)]
+        fn do_exec(&self, _ctx: ExecCtx) -> StdResult<Response> { Ok(Response::new()) }
+        #[sv::msg(query)]
+        fn do_query(&self, _ctx: QueryCtx) -> StdResult<Resp> { Ok(Resp {}) }
+        #[sv::msg(sudo)]
+        fn do_sudo(&self, _ctx: SudoCtx) -> StdResult<Response> { Ok(Response::new()) }
+        #[sv::msg(migrate)]
+        fn migrate(&self, _ctx: MigrateCtx) -> StdResult<Response> { Ok(Response::new()) }
+        #[sv::msg(reply, handlers=[on_done], reply_on=success)]
+        fn on_done(&self, _ctx: ReplyCtx, #[sv::payload(raw)] _payload: Binary) -> StdResult<Response> { Ok(Response::new()) }
+    }
+}
+
+pub mod ovr_shared_inst_exec {
+    use super::*;
+    pub mod eps {
+        use super::super::*;
+        #[sylvia::cw_schema::cw_serde]
+        pub struct CustomExec {}
+        pub fn execute(_deps: DepsMut, _env: Env, _info: MessageInfo, _msg: CustomExec) -> StdResult<Response> { Ok(Response::new()) }
+    }
+
+    pub struct Contract;
+
+    #[entry_points]
+    #[contract]
+    #[sv::override_entry_point(instantiate=eps::execute(eps::CustomExec))]
+    #[sv::override_entry_point(exec=eps::execute(eps::CustomExec))]
+    impl Contract {
+        pub fn new() -> Self { Self }
+        #[sv::msg(instantiate)]
+        fn instantiate(&self, _ctx: InstantiateCtx) -> StdResult<Response> { Ok(Response::new()) }
+        #[sv::msg(exec)]
+        fn do_exec(&self, _ctx: ExecCtx) -> StdResult<Response> { Ok(Response::new()) }
+        #[sv::msg(query)]
+        fn do_query(&self, _ctx: QueryCtx) -> StdResult<Resp> { Ok(Resp {}) }
+        #[sv::msg(sudo)]
+        fn do_sudo(&self, _ctx: SudoCtx) -> StdResult<Response> { Ok(Response::new()) }
+        #[sv::msg(migrate)]
+        fn migrate(&self, _ctx: MigrateCtx) -> StdResult<Response> { Ok(Response::new()) }
+        #[sv::msg(reply)]
+        fn reply(&self, _ctx: sylvia::types::ReplyCtx, _msg: Reply) -> StdResult<Response> { Ok(Response::new()) }
+    }
+}
+
+pub mod ovr_shared_sudo_migr_repl {
+    use super::*;
+    pub mod eps {
+        use super::super::*;
+
+        pub fn reply(_deps: DepsMut, _env: Env, _msg: Reply) -> StdResult<Response> { Ok(Response::new()) }
+    }
+
+    pub struct Contract;
+
+    #[entry_points]
+    #[contract]
+    #[sv::features(replies)]
+    #[sv::override_entry_point(sudo=eps::reply(sylvia::cw_std::Reply))]
+    #[sv::override_entry_point(migrate=eps::reply(sylvia::cw_std::Reply))]
+    #[sv::override_entry_point(reply=eps::reply(sylvia::cw_std::Reply))]
+    impl Contract {
+        pub fn new() -> Self { Self }
+        #[sv::msg(instantiate)]
+        fn instantiate(&self, _ctx: InstantiateCtx) -> StdResult<Response> { Ok(Response::new()) }
+        #[sv::msg(exec)]
+        fn do_exec(&self, _ctx: ExecCtx) -> StdResult<Response> { Ok(Response::new()) }
+        #[sv::msg(query)]
+        fn do_query(&self, _ctx: QueryCtx) -> StdResult<Resp> { Ok(Resp {}) }
+        #[sv::msg(sudo)]
+        fn do_sudo(&self, _ctx: SudoCtx) -> StdResult<Response> { Ok(Response::new()) }
+        #[sv::msg(migrate)]
+        fn migrate(&self, _ctx: MigrateCtx) -> StdResult<Response> { Ok(Response::new()) }
+        #[sv::msg(reply, handlers=[on_done], reply_on=success)]
+        fn on_done(&self, _ctx: ReplyCtx, #[sv::payload(raw)] _payload: Binary) -> StdResult<Response> { Ok(Response::new()) }
+    }
+}
+
+pub mod ovr_shared_migr_sudo_nomr {
+    use super::*;
+    pub mod eps {
+        use super::super::*;
+        #[sylvia::cw_schema::cw_serde]
+        pub struct CustomSudo {}
+        pub fn sudo(_deps: DepsMut, _env: Env, _msg: CustomSudo) -> StdResult<Response> { Ok(Response::new()) }
+    }
+
+    pub struct Contract;
+
+    #[entry_points]
+    #[contract]
+    #[sv::override_entry_point(migrate=eps::sudo(eps::CustomSudo))]
+    #[sv::override_entry_point(sudo=eps::sudo(eps::CustomSudo))]
+    impl Contract {
+        pub fn new() -> Self { Self }
+        #[sv::msg(instantiate)]
+        fn instantiate(&self, _ctx: InstantiateCtx) -> StdResult<Response> { Ok(Response::new()) }
+        #[sv::msg(exec)]
+        fn do_exec(&self, _ctx: ExecCtx) -> StdResult<Response> { Ok(Response::new()) }
+        #[sv::msg(query)]
+        fn do_query(&self, _ctx: QueryCtx) -> StdResult<Resp> { Ok(Resp {}) }
+        #[sv::msg(sudo)]
+        fn do_sudo(&self, _ctx: SudoCtx) -> StdResult<Response> { Ok(Response::new()) }
+    }
+}
